@@ -8,6 +8,7 @@
   * the `swt` formula is circular-shift equivariant for every shift.
 -/
 import WaveletsVerif.Lemmas.Basic
+import WaveletsVerif.Properties.C01
 namespace WV.C13
 open Finset WV
 variable {R : Type} [CommRing R]
@@ -98,6 +99,113 @@ theorem swt_shift (h x : List R) (d : Nat) (s : Int) (hN : 1 ≤ x.length) :
       = ((k:Int) + (d:Int) * (((h.length/2 : Nat):Int) - i)) % (x.length:Int) := by omega
   rw [t1, t2, Int.emod_add_emod, Int.emod_sub_emod]
   congr 1; ring
+
+/-! ### the module: level loop with dilation `2^j`, `(N,C,4,H,W)` packing -/
+
+theorem afb1dAtrousT_one (ax : Axis) (mode : Mode) (d : Nat) (w0 w1 : List R) (x : Img R) :
+    afb1dAtrousT ax mode d w0 w1 [x] = (do
+      let lo ← alongO ax (afb1dAtrousOne mode d w0) x
+      let hi ← alongO ax (afb1dAtrousOne mode d w1) x
+      some [lo, hi]) := by
+  simp [afb1dAtrousT, grouped, tab, List.range, List.range.loop]
+  cases alongO ax (afb1dAtrousOne mode d w0) x <;> cases alongO ax (afb1dAtrousOne mode d w1) x <;> simp
+
+theorem afb1dAtrousT_two (ax : Axis) (mode : Mode) (d : Nat) (w0 w1 : List R) (x y : Img R) :
+    afb1dAtrousT ax mode d w0 w1 [x, y] = (do
+      let a ← alongO ax (afb1dAtrousOne mode d w0) x
+      let b ← alongO ax (afb1dAtrousOne mode d w1) x
+      let c ← alongO ax (afb1dAtrousOne mode d w0) y
+      let e ← alongO ax (afb1dAtrousOne mode d w1) y
+      some [a, b, c, e]) := by
+  simp [afb1dAtrousT, grouped, tab, List.range, List.range.loop]
+  cases alongO ax (afb1dAtrousOne mode d w0) x <;> cases alongO ax (afb1dAtrousOne mode d w1) x <;>
+  cases alongO ax (afb1dAtrousOne mode d w0) y <;> cases alongO ax (afb1dAtrousOne mode d w1) y <;> simp
+
+theorem swt_length (h x : List R) (d : Nat) : (Spec.swt h x d).length = x.length := by simp [Spec.swt]
+
+theorem atrous_W (h : List R) (hL : 2 ≤ h.length) (hLe : h.length % 2 = 0) (d : Nat) (hd : 1 ≤ d) (x : Img R)
+    (hx : ∀ r ∈ x, 1 ≤ r.length) :
+    alongO .W (afb1dAtrousOne .periodic d h.reverse) x = some (Spec.rowsMap (fun r => Spec.swt h r d) x) := by
+  unfold alongO alongWO Spec.rowsMap
+  exact mapM_total _ _ x (fun r hr => afb1dAtrousOne_periodic_eq_swt h r d hL hLe (hx r hr) hd)
+
+theorem atrous_H (h : List R) (hL : 2 ≤ h.length) (hLe : h.length % 2 = 0) (d : Nat) (hd : 1 ≤ d) (x : Img R)
+    (hx : 1 ≤ x.length) :
+    alongO .H (afb1dAtrousOne .periodic d h.reverse) x = some (Spec.colsMap (fun c => Spec.swt h c d) x) := by
+  unfold alongO alongHO Spec.colsMap
+  rw [mapM_total _ (fun c => Spec.swt h c d) (tr x)
+    (fun r hr => afb1dAtrousOne_periodic_eq_swt h r d hL hLe (by rw [tr_row_length x r hr]; exact hx) hd)]
+  rfl
+
+/-- one level of the undecimated filter bank on one channel = the four `swt2` bands (A, H, V, D) -/
+theorem afb2dAtrous_eq_level (c0 c1 r0 r1 : List R) (hc0 : 2 ≤ c0.length ∧ c0.length % 2 = 0)
+    (hc1 : 2 ≤ c1.length ∧ c1.length % 2 = 0) (hr0 : 2 ≤ r0.length ∧ r0.length % 2 = 0)
+    (hr1 : 2 ≤ r1.length ∧ r1.length % 2 = 0) (d : Nat) (hd : 1 ≤ d) (x : Img R) (hx : C01.NonEmptyImg x) :
+    afb2dAtrous .periodic d c0.reverse c1.reverse r0.reverse r1.reverse [x]
+      = some (Spec.swt2Level c0 c1 r0 r1 d x) := by
+  unfold afb2dAtrous
+  rw [afb1dAtrousT_one, atrous_W r0 hr0.1 hr0.2 d hd x hx.2, atrous_W r1 hr1.1 hr1.2 d hd x hx.2]
+  simp only [Option.bind_eq_bind, Option.bind_some]
+  have hlo : 1 ≤ (Spec.rowsMap (fun r => Spec.swt r0 r d) x).length := by simp [Spec.rowsMap]; exact hx.1
+  have hhi : 1 ≤ (Spec.rowsMap (fun r => Spec.swt r1 r d) x).length := by simp [Spec.rowsMap]; exact hx.1
+  rw [afb1dAtrousT_two, atrous_H c0 hc0.1 hc0.2 d hd _ hlo, atrous_H c1 hc1.1 hc1.2 d hd _ hlo,
+    atrous_H c0 hc0.1 hc0.2 d hd _ hhi, atrous_H c1 hc1.1 hc1.2 d hd _ hhi]
+  simp [Spec.swt2Level]
+
+/-- the approximation band of a level is again a non-empty image of the same size -/
+theorem level_A_nonempty (c0 r0 : List R) (d : Nat) (x : Img R) (hx : C01.NonEmptyImg x) :
+    C01.NonEmptyImg (Spec.colsMap (fun c => Spec.swt c0 c d) (Spec.rowsMap (fun r => Spec.swt r0 r d) x)) := by
+  obtain ⟨hH, hW⟩ := hx
+  set lo := Spec.rowsMap (fun r => Spec.swt r0 r d) x with hlo
+  have hlo_ne : C01.NonEmptyImg lo := by
+    constructor
+    · simp [hlo, Spec.rowsMap]; exact hH
+    · intro r hr
+      simp only [hlo, Spec.rowsMap, List.mem_map] at hr
+      obtain ⟨a, ha, rfl⟩ := hr
+      rw [swt_length]; exact hW a ha
+  have htr : C01.NonEmptyImg (tr lo) := C01.tr_nonempty lo hlo_ne.1 (C01.width_of_nonempty lo hlo_ne)
+  unfold Spec.colsMap
+  apply C01.tr_nonempty
+  · simp; exact htr.1
+  · apply C01.width_of_nonempty
+    constructor
+    · simp; exact htr.1
+    · intro r hr
+      simp only [List.mem_map] at hr
+      obtain ⟨a, ha, rfl⟩ := hr
+      rw [swt_length]; exact htr.2 a ha
+
+/-- `SWTForward` (default mode 'periodization' or 'periodic') on one channel returns, for **every J**,
+the levels of `pywt.swt2` (finest first), each as the four bands (A, H, V, D) at full resolution, level
+`j` using the filters dilated by `2^(j-1)`; even-length filters, every non-empty image. -/
+theorem SWTForward_eq_swt2 (mode : Mode) (hm : mode = .periodization ∨ mode = .periodic)
+    (c0 c1 r0 r1 : List R) (hc0 : 2 ≤ c0.length ∧ c0.length % 2 = 0) (hc1 : 2 ≤ c1.length ∧ c1.length % 2 = 0)
+    (hr0 : 2 ≤ r0.length ∧ r0.length % 2 = 0) (hr1 : 2 ≤ r1.length ∧ r1.length % 2 = 0)
+    (J : Nat) (x : Img R) (hx : C01.NonEmptyImg x) :
+    SWTForwardM mode J [c0, c1, r0, r1] [x] = some ((Spec.swt2 c0 c1 r0 r1 J 0 x).map fun b => [b]) := by
+  simp only [SWTForwardM, wave4, Option.bind_eq_bind, Option.bind_some]
+  have hmm : (if mode = Mode.periodization then Mode.periodic else mode) = Mode.periodic := by
+    rcases hm with rfl | rfl <;> simp
+  generalize 0 = j
+  induction J generalizing x j with
+  | zero => simp [SWTForward, Spec.swt2]
+  | succ J ih =>
+    simp only [SWTForward, Spec.swt2, hmm]
+    rw [afb2dAtrous_eq_level c0 c1 r0 r1 hc0 hc1 hr0 hr1 (2^j) (Nat.one_le_two_pow) x hx]
+    simp only [Option.bind_eq_bind, Option.bind_some]
+    have hA : C01.NonEmptyImg ((Spec.swt2Level c0 c1 r0 r1 (2^j) x).getD 0 []) := by
+      simp only [Spec.swt2Level, List.getD_cons_zero]
+      exact level_A_nonempty c0 r0 (2^j) x hx
+    have e : (tab ((Spec.swt2Level c0 c1 r0 r1 (2^j) x).length / 4) fun c =>
+        [(Spec.swt2Level c0 c1 r0 r1 (2^j) x).getD (4*c) [], (Spec.swt2Level c0 c1 r0 r1 (2^j) x).getD (4*c+1) [],
+         (Spec.swt2Level c0 c1 r0 r1 (2^j) x).getD (4*c+2) [], (Spec.swt2Level c0 c1 r0 r1 (2^j) x).getD (4*c+3) []])
+        = [Spec.swt2Level c0 c1 r0 r1 (2^j) x] := by
+      simp [Spec.swt2Level, tab, List.range, List.range.loop]
+    rw [e]
+    simp only [List.map_cons, List.map_nil]
+    rw [ih _ hA (j+1)]
+    simp
 
 /-- non-vacuity -/
 example : (2 ≤ ([1,2,3,4] : List Int).length) ∧ ([1,2,3,4] : List Int).length % 2 = 0 := by decide
